@@ -7,13 +7,13 @@ CLAIMED = {
  "C01": ("WriteToFile: the text handed to go/parser is proved to be header(pkg name, generator) + package clause + import block + rendered body verbatim, for the path <SourceDir>/<base>.<generator>.go; a written file went through parse(ParseComments) -> SortImports -> gofumpt(LangVersion 'go'+module GoVersion, ModulePath) -> go/format in exactly this order (ghost pipeline log); writeImports prints exactly the tracker's table, sorted; Render appends fragments verbatim in order. Partial: that the formatters produce a parseable gofmt/gofumpt fixed point and keep declaration order is an ASSUMED contract on go/parser, go/format, gofumpt (E-fmt).",
          "E-fmt (formatter behaviour) assumed; os/io/fmt/path extern contracts; Snippet.Frag/IsNil, Context.Package, Package.* interface observers assumed pure (devirtualised where a proved contract exists); the odd os.IsNotExist/Create branch can leave an empty file (assumed unreachable)",
          "deductive verification: functional postconditions over ghost parsed-text and formatter-pipeline logs", "3/C01"),
- "C02": ("Effect ordering over a ghost file-system log, for every package/generator/error position: WriteToFile parses before it opens (a parse error is returned, nothing opened); pkgExecute has produced NO effect when a generator or deferred callback returns a non-swallowed error (all generators finish before the first write); only ErrSkip/ErrIgnore are swallowed and the error is returned unchanged by doGenerate*; Execute touches gengo.sum only when All is set, only after every pkgExecute returned nil, and every gengo.sum effect comes after all package effects (crash-prefix property).",
-         "POSIX behaviour of os.OpenFile/Create (a failed open has no effect) assumed; generators/callbacks assumed to perform no file-system effect of their own and not to write the framework's unexported fields (preserves); kill during Save itself not covered; the error-wrapping text (generator name + package path) is not a postcondition",
+ "C02": ("Effect ordering over a ghost file-system log, for every package/generator/error position: WriteToFile parses before it opens (a parse error is returned, nothing opened); pkgExecute has produced NO effect when a generator or deferred callback returns a non-swallowed error (all generators finish before the first write); only ErrSkip/ErrIgnore are swallowed and the error is returned unchanged by doGenerate*; Execute touches gengo.sum only when All is set, only after every pkgExecute returned nil, and every gengo.sum effect comes after all package effects (crash-prefix property). Exceptional exits: when user code (generator, custom constructor, deferred callback) PANICS, the panic unwinds through pkgExecute / Execute, their pending defers run, and every effect of the run so far is a package effect (gengo.sum not rewritten).",
+         "POSIX behaviour of os.OpenFile/Create (a failed open has no effect) assumed; generators/callbacks assumed to perform no file-system effect of their own and not to write the framework's unexported fields (preserves); kill during Save itself not covered; the error-wrapping text (generator name + package path) is not a postcondition a panic is modelled only where user code is called (interface methods with a calllog contract and callbacks); runtime panics of the framework's own code are excluded by the safety obligations instead",
          "deductive verification: protocol postconditions and loop invariants over ghost effect/call logs", "3/C02"),
- "C03": ("Import tracker: representation invariant (path->name and name->path mutually inverse, every bound name a valid non-keyword identifier, std names reserved) is preserved by add for every path; add always registers the path (fallback numbering), is idempotent, and leaves every other binding unchanged (whole-map postcondition + frame); LocalNameOf/PathOf/Imports observers; golangTrackerLocalName/toLocalName total. Partial: rawNamer.Name and the import block printer are added as built; 'none unused' is not decided for third-party snippets.",
-         "token.IsIdentifier, strconv.Itoa, strings.Split, slices.Index/Backward/Reverse extern contracts; camelcase.LowerCamelCase (package-level function value) assumed pure; termination of the fallback numbering loop not verified",
+ "C03": ("Import tracker: representation invariant (path->name and name->path mutually inverse, every bound name a valid non-keyword identifier, std names reserved) is preserved by add for every path; add always registers the path (fallback numbering), is idempotent, and leaves every other binding unchanged (whole-map postcondition + frame); LocalNameOf/PathOf/Imports observers; golangTrackerLocalName/toLocalName total. Partial: rawNamer.Name and the import block printer are added as built; 'none unused' is not decided for third-party snippets. rawNamer.Name: own-package references are unqualified and register nothing, foreign ones are qualified with exactly the name the tracker binds to their package, register exactly that package and rename no other (bracket-free names); processName never registers the own package or an empty path and never renames; the interface contract of namer.ImportTracker is proved for *defaultImportTracker (lemma) and assumed for other implementations. Thorough tier: bounded probe over generated nested references.",
+         "token.IsIdentifier, strconv.Itoa, strings.Split, slices.Index/Backward/Reverse extern contracts; camelcase.LowerCamelCase (package-level function value) assumed pure; termination of the fallback numbering loop not verified instantiated (bracketed) names: only the never-registers-own-package / never-renames clauses are proved, the exact rewriting is bounded (probe)",
          "deductive verification: representation invariant + whole-map postconditions + frame obligations discharged by SMT", "3/C03"),
- "C04": ("For every map range in the anchored code that is under contract (IsGeneratorEnabled, merge; more as built) the result is proved equal to a function of the map's CONTENTS with the iteration order modelled as an arbitrary duplicate-free enumeration of the key set: order cannot leak. Partial: whole-run determinism and the second-run fixed point are not decided.",
+ "C04": ("For every map range in the anchored code that is under contract (IsGeneratorEnabled, merge; more as built) the result is proved equal to a function of the map's CONTENTS with the iteration order modelled as an arbitrary duplicate-free enumeration of the key set: order cannot leak. Partial: whole-run determinism and the second-run fixed point are not decided. types.Load: packages are classified local/direct against the COMPLETE set of root modules (registration starts only after every entrypoint was seen), which is what makes the result independent of the order of the entrypoints.",
          "determinism of go/packages, go/types, gofumpt, dirhash assumed; statements over histories of runs not decided; only the functions listed in evidence.functions_under_contract are covered",
          "deductive verification (VCs from go/ast+go/types, z3/cvc5): order-independence under permuted map ranges", "3/C04"),
  "C05": ("Freshness and frame: gengoCtx.New returns a freshly allocated generator (never a registered prototype: proved for reflect.New, assumed contract for custom New); newGenfile/NewDefaultImportTracker/NewRawNamer/NewSnippetWriter return fresh objects wired to each other (writer -> that genfile's buffer, namer -> that genfile's tracker); pkgExecute's call log never contains a prototype as the invoked generator; pkgExecute preserves every pre-existing framework object (typed frame obligations).",
@@ -22,19 +22,19 @@ CLAIMED = {
  "C06": ("Enablement rule (IsGeneratorEnabled == the statement's rule, for every tag map and every iteration order), merge precedence (last map that defines a key wins, for every list of maps), tag extraction; dispatch/defer ordering added as built.",
          "Generator.Name assumed a pure observer; strings.Join/HasPrefix extern contracts; dispatch loop obligations listed in evidence when present",
          "deductive verification: functional postconditions + loop invariants discharged by SMT", "3/C06"),
- "C07": ("Frame over the ghost effect log, for every run: every effect of pkgExecute is Open/Write on <SourceDir>/<base>.<generator>.go of the processed package or Remove of a file OF THAT PACKAGE whose base name starts with <base>. (with the dot); a cached package and an early error produce no effect; Execute's effects are package effects of local packages that are direct (or any when All) followed only by effects on <Dir>/gengo.sum, and none of the latter without All; Filename/IsZero observers.",
-         "generator names assumed separator-free (written path vs removed path are not proved distinct); effects of user code assumed absent; files not in the package's compiled syntax are never candidates",
+ "C07": ("Frame over the ghost effect log, for every run: every effect of pkgExecute is Open/Write on <SourceDir>/<base>.<generator>.go of the processed package or Remove of a file OF THAT PACKAGE whose base name starts with <base>. (with the dot); a cached package and an early error produce no effect; Execute's effects are package effects of local packages that are direct (or any when All) followed only by effects on <Dir>/gengo.sum, and none of the latter without All; Filename/IsZero observers. After a successful non-cached package run EVERY source file of the package whose base name starts with <base>. has been rewritten (truncating open) or removed (completeness of the clean-up). types.Load: the direct flag is set exactly for the entrypoints.",
+         "generator names assumed separator-free (written path vs removed path are not proved distinct); effects of user code assumed absent; files not in the package's compiled syntax are never candidates a stored genfile is assumed still non-empty when it is written (loop 5 assume)",
          "deductive verification: whole-log postconditions (every new effect satisfies the path predicate)", "3/C07"),
- "C08": ("pkgChanged: Force, missing previous file, missing entry, empty current sum or differing sums imply 'changed' and 'unchanged' implies equal recorded sums (all inputs); File.Sum observer. Partial: Bytes/Load round trip and Execute ordering added as built; convergence over histories not decided.",
+ "C08": ("pkgChanged: Force, missing previous file, missing entry, empty current sum or differing sums imply 'changed' and 'unchanged' implies equal recorded sums (all inputs); File.Sum observer. Partial: Bytes/Load round trip and Execute ordering added as built; convergence over histories not decided. File.Save opens <Dir>/gengo.sum TRUNCATING (flags read from the constant argument) before writing; types.Load records, for every local package, dirhash.HashDir of the WHOLE package directory.",
          "dirhash is a function of directory contents (assumed); histories of runs not decided",
          "deductive verification: postconditions of pkgChanged/File.Sum/Universe.SumFile discharged by SMT", "3/C08"),
- "C09": ("template.Frag and printer.Frag are proved equal to recursive specifications taken from the statement (every rune preserved in order, @name replaced by the complete rendering of its argument or nothing for nil/empty, one apostrophe consumed, bare '@' kept, no re-scan; %v/%T/%% and verbatim text; panics exactly when a placeholder is unbound / a verb is unknown / an argument is missing), Comment, GoDirective, Block, Fragments, Snippets, fn.Frag, Render against their specs; yield-after-stop discipline.",
+ "C09": ("template.Frag and printer.Frag are proved equal to recursive specifications taken from the statement (every rune preserved in order, @name replaced by the complete rendering of its argument or nothing for nil/empty, one apostrophe consumed, bare '@' kept, no re-scan; %v/%T/%% and verbatim text; panics exactly when a placeholder is unbound / a verb is unknown / an argument is missing), Comment, GoDirective, Block, Fragments, Snippets, fn.Frag, Render against their specs; yield-after-stop discipline. Args.Args / arg.Args hand every binding (nil ones included) to T() exactly once.",
          "text/scanner delivers []rune(format) (false for a leading U+FEFF: known finding); ID/Value modelled as pure constructors; rendered snippets assumed not to mutate the template/printer they are rendered into (stable); T() constructor not under contract",
          "deductive verification: iterator bodies against recursive executable spec functions (fuel-encoded), loop invariants in accumulator form", "3/C09"),
  "C12": ("ExtractCommentTags proved equal to a recursive specification (every line classified exactly once, order kept, values per key in order, default markers), splitKV proved against the statement (first '=' or ' '), oneOf. Partial: the comment index invariant of newPkg and Doc/Comment look-ups are added as built.",
          "strings.Trim / strings.IndexAny extern contracts; go/parser comment attachment assumed",
          "deductive verification: loop invariants against recursive executable spec functions", "3/C12"),
- "C13": ("newPkg: the name->object tables of a loaded package are proved to hold EXACTLY the package-scope type names, constants and functions of the type checker (both inclusions, for every types.Info.Defs map and every iteration order: a function-local declaration or type parameter of the same name can never be recorded); Type/Types/Constant(s)/Function(s) return those tables; every method recorded under N is declared on (an instantiation of) N, keyed by the ORIGIN type so generic T works, and MethodsOf(T,false) is exactly the value-receiver subset of MethodsOf(T,true); Imports() maps every import path to Universe.Package(path); SourceDir/Module/Files/Pkg observers. Partial: completeness of the method table (every declared method is listed) and LocateInPackage are not decided.",
+ "C13": ("newPkg: the name->object tables of a loaded package are proved to hold EXACTLY the package-scope type names, constants and functions of the type checker (both inclusions, for every types.Info.Defs map and every iteration order: a function-local declaration or type parameter of the same name can never be recorded); Type/Types/Constant(s)/Function(s) return those tables; every method recorded under N is declared on (an instantiation of) N, keyed by the ORIGIN type so generic T works, and MethodsOf(T,false) is exactly the value-receiver subset of MethodsOf(T,true); Imports() maps every import path to Universe.Package(path); SourceDir/Module/Files/Pkg observers. Partial: completeness of the method table (every declared method is listed) and LocateInPackage are not decided. MethodsOf never appends to a reslice of the stored method list (aliasing guard: S.alias-append).",
          "go/types facts assumed (listed in evidence): Scope.Lookup(obj.Name()) == obj for package-scope objects, scope functions have no receiver, Origin() idempotent; go/packages populates Imports for every import path (E-load)",
          "deductive verification: whole-map postconditions + loop invariants over an arbitrary-order map range, discharged by SMT", "3/C13"),
  "C14": ("visits.visited marks the (function type, index) pair and reports whether it was marked (whole-map postcondition); funcResultsFromSignature yields exactly n one-element lists; Concat merges position-wise; resultsFromAst returns exactly n non-empty lists whenever a syntax node exists (bodyless declarations included), whatever the per-slot iterators yield; Results / ResultsOf return n and exactly n non-empty lists for every signature whose recorded node is a declaration, a literal, a selector naming a function, a call, or absent (condition spec_knownShape, stated in the contract); callExprResultAt: every tuple index in range, no nil dereference, no yield after stop. Partial: termination of the mutually recursive resolver and the 'assignable alternatives' / 'exactly the literal values' clauses are not decided; thorough tier adds a bounded probe over generated function shapes (recursion, grouped results, closures wider than the callee, bodyless).",
@@ -46,7 +46,7 @@ CLAIMED = {
  "C19": ("camelcase.Split never panics (every index/slice expression in bounds on every path, for every string), returns only non-empty words, and returns [src] for invalid UTF-8. Partial: losslessness (concatenation equals input) and converter totality are added as built.",
          "unicode.Is*, utf8.ValidString total and deterministic (uninterpreted); string/[]rune conversion axioms; integers mathematical",
          "deductive verification: safety sweep + loop invariants discharged by SMT", "3/C19"),
- "C20": ("Rule.inflected never panics, is functional (deterministic analysis: no havoc, no unknown call), and satisfies the prefix-preservation lemma inflected(pre+w) == pre+inflected(w), proved as a ghost lemma over its contract. Partial: memoisation (Rule.Inflected) is a trusted contract; data races are not decided.",
+ "C20": ("Rule.inflected never panics, is functional (deterministic analysis: no havoc, no unknown call), and satisfies the prefix-preservation lemma inflected(pre+w) == pre+inflected(w), proved as a ghost lemma over its contract. Partial: memoisation (Rule.Inflected) is a trusted contract; data races are not decided. Rule.Init writes only the rule tables: the memoisation cache is left untouched (frame obligation over the sync.Map ghost state).",
          "regexp match shape for the pattern built by Init, and non-empty replacements: assume clauses (listed in evidence); sync.Map/sync.OnceValue memoisation trusted; schedules outside this family",
          "deductive verification: safety + functional obligations + ghost lemma over contracts", "3/C20"),
 }
